@@ -392,6 +392,37 @@ class ObjectTemplate(base.HyperValue, utils.Formattable):
           )
       return template_value
 
+    def _reject_dict_for_list(
+        path: utils.KeyPath, template_value: Any, input_value: Any
+    ) -> None:
+      """Merging a dict with int keys into a list would modify the template."""
+      if isinstance(template_value, base.HyperValue):
+        return
+      if isinstance(template_value, list) and isinstance(input_value, dict):
+        raise ValueError(
+            f'Unmatched list between template value and input '
+            f'value. (Path=\'{path}\', Template={template_value!r}, '
+            f'Input={input_value!r})')
+      if isinstance(input_value, (dict, list, symbolic.Object)):
+        if isinstance(template_value, symbolic.Symbolic):
+          children = template_value.sym_items()
+        elif isinstance(template_value, dict):
+          children = template_value.items()
+        elif isinstance(template_value, list):
+          children = enumerate(template_value)
+        else:
+          return
+        for key, child in children:
+          try:
+            if isinstance(input_value, symbolic.Symbolic):
+              input_child = input_value.sym_getattr(key)
+            else:
+              input_child = input_value[key]
+          except (KeyError, IndexError, TypeError, AttributeError):
+            continue
+          _reject_dict_for_list(utils.KeyPath(key, path), child, input_child)
+
+    _reject_dict_for_list(self._root_path, self._value, value)
     utils.merge_tree(self._value, value, _encode, root_path=self._root_path)
     # NOTE: a dict in the input is visited in the key order of the input, while
     # the DNA follows the order of the decision points in the template.
